@@ -78,6 +78,8 @@ def inventory(facts):
         base = cfgmod.closure_creation_depth(P, r) if root_of(r) != r else 0
         for s in sites:
             s["ctrl"] = base + cfgmod.ctrl_depth(c, s["block"])
+            # iteration context: loop headers around the site, and one for every closure level (a body handed to an iterator adaptor runs once per element too)
+            s["loop"] = cfgmod.loop_depth(c, s["block"]) + (r.count("::{closure") if root_of(r) != r else 0)
             per.setdefault(s["kind"], []).append(s)
         fams.setdefault(family(r), []).append((r, per))
     return P, R, fams, missing
